@@ -170,6 +170,9 @@ func c16Deliver(a *Agent, kind int, from identity.AgentID, id uint64, payload []
 		a.handleStreamClose(from, &protocol.Frame{Type: protocol.FrameStreamClose, StreamID: id})
 	case 2:
 		a.handleStreamReset(from, &protocol.Frame{Type: protocol.FrameStreamReset, StreamID: id, Payload: (&protocol.StreamReset{ErrorCode: 1}).Encode()})
+	case 4: // the downstream side acknowledges the open
+		ack := &protocol.StreamOpenAck{RequestID: 1, BoundAddrType: protocol.AddrTypeIPv4, BoundAddr: []byte{1, 2, 3, 4}, BoundPort: 9}
+		a.handleStreamOpenAck(from, &protocol.Frame{Type: protocol.FrameStreamOpenAck, StreamID: id, Payload: ack.Encode()})
 	case 3: // the downstream side refuses the open
 		a.handleStreamOpenErr(from, &protocol.Frame{Type: protocol.FrameStreamOpenErr, StreamID: id, Payload: (&protocol.StreamOpenErr{RequestID: 1, ErrorCode: 2, Message: "x"}).Encode()})
 	}
@@ -192,9 +195,12 @@ func c16Check(a *Agent, e1, e2 *relayEntry, kind int, fromUp bool, payload []byt
 	// the other tunnel is untouched
 	u2, _ := a.tcpRelay.LookupBoth(e2.UpstreamID)
 	verif_assert(u2 == e2 && a.tcpRelay.LookupDownstream(e2.DownstreamID) == e2, tagPrefix+"/other-tunnel-untouched")
-	if kind != 0 {
+	if kind != 0 && kind != 4 {
 		u1, _ := a.tcpRelay.LookupBoth(e1.UpstreamID)
 		verif_assert(u1 != e1 && a.tcpRelay.LookupDownstream(e1.DownstreamID) != e1, tagPrefix+"/closed-tunnel-removed")
+	} else {
+		u1, _ := a.tcpRelay.LookupBoth(e1.UpstreamID)
+		verif_assert(u1 == e1 && a.tcpRelay.LookupDownstream(e1.DownstreamID) == e1, tagPrefix+"/live-tunnel-removed")
 	}
 }
 
@@ -204,10 +210,10 @@ func harnessC16Transit() {
 	a.tcpRelay.Insert(e1)
 	a.tcpRelay.Insert(e2)
 	c16Log = nil
-	kind := verif_choose(4)
+	kind := verif_choose(5)
 	fromUp := verif_nondet_bool()
-	if kind == 3 {
-		fromUp = false // an open refusal comes from the downstream side
+	if kind == 3 || kind == 4 {
+		fromUp = false // the answer to an open comes from the downstream side
 	}
 	payload := verif_nondet_bytes(1)
 	if fromUp {
@@ -281,5 +287,5 @@ func c16Stranger(kinds []int) {
 	}
 }
 
-func harnessC16StrangerClose() { c16Stranger([]int{1, 2, 3}) }
+func harnessC16StrangerClose() { c16Stranger([]int{1, 2, 3, 4}) }
 func harnessC16StrangerData()  { c16Stranger([]int{0}) }
